@@ -90,6 +90,8 @@ PROPS = {
               "v.createPool": ["pools", "bal", "acct", "tr"], "v.withdraw": ["paid", "pools", "bal"], "v.send": ["pools", "bal", "acct", "tr"],
               "v.createVA": ["bal", "acct"], "v.split": ["bal", "acct", "tr"], "v.move": ["bal", "acct", "tr"], "v.moveDenoms": ["bal", "acct", "tr"],
               "v.q.pools": "*", "v.q.summary": "*", "v.q.locked": "*", "m.infl": "*"},
+             # after an export/import the chain must behave as the original would have: every projected op is exact
+             exact_ops=["g.exportimport", "m.block", "d.bb", "m.infl", "v.*"],
              thorough_seeds=8),
     "C01": P(["C4E.Props.C01", "C4E.Tie.C01"], ["C4E.Props.C01"],
              [("minter", 150, 2000), ("distr", 150, 2000), ("distrfaults", 80, 1000), ("vest", 150, 2000), ("split", 80, 1000), ("sig", 40, 400)],
